@@ -411,22 +411,22 @@ func c18Seed8(r *Report) {
 // LaterRules: one sentence per property about the obligations added after blind seed rounds 6–8 (appended to the evidence's
 // coverage explanation, which is otherwise written per property at the top of its rule file).
 var LaterRules = map[string]string{
-	"C01": "Added after seed rounds 6-8: ProofOptions.ValidAt answers true only via 'no expiry' or 'not yet expired'.",
-	"C02": "Added after seed rounds 6-8: the s2s nonce is looked up and registered under the extracted nonce alone (flow-sensitive value identity); the all-present flag of the nonce check is a sticky loop-carried flag.",
-	"C03": "Added after seed rounds 6-8: the key reference is read from the table on every use and the engine holds no process-local map; the DPoP jwk header is set from the signing key on every path; the in-memory signer signs only for its own key id (byte equality).",
-	"C04": "Added after seed rounds 6-8: the wildcard address alone makes two listen addresses overlap (bare disjuncts of the result); the RSA key size compared with the minimum is the modulus bit length itself.",
-	"C06": "Added after seed rounds 6-8: the recorded key id is the kid header's value and is recorded whenever the header is present; every entry of the prevs header is kept as a reference.",
-	"C07": "Added after seed rounds 6-8: the advertised clock never goes down; private transactions are served without their payload; the IBLT fallback goes exactly one page down; a concurrently duplicated delivery is not summarised twice; loop-carried flags in the transport packages are sticky.",
-	"C08": "Added after seed rounds 6-8: the repair replaces a page with the unmodified recomputed root; the whole-tree root answers only a request at or beyond the head; tree.Load forgets all tracked updates.",
-	"C09": "Added after seed rounds 6-8: the DID is compared with the thumbprint as spelled (the field itself); the deactivated flag of a merged version is sticky.",
-	"C10": "Added after seed rounds 6-8: the deactivated flag of a version is computed from the transaction's own document; a DID is counted once, at version 0; every delivery of a transaction is applied (no seen-before shortcut).",
-	"C11": "Added after seed rounds 6-8: revocation is independent of the validation time; the status-list index is compared with nothing but the list's own bound.",
-	"C12": "Added after seed rounds 6-8: count/min/max count matched members (the member list is never cut positionally); unfulfilled nested requirements keep an empty slot.",
-	"C13": "Added after seed rounds 6-8: 'committed' for did:nuts means head of the store; the pending test does not consult the clock; the sweep's committed flag is sticky.",
-	"C14": "Added after seed rounds 6-8: the retry loop has no RetryIf predicate (only the receiver's verdict or the budget end the retries).",
-	"C15": "Added after seed rounds 6-8: PAL.Contains is DID equality; behind a TLS terminator exactly one certificate header value is accepted.",
-	"C16": "Added after seed rounds 6-8: the client's timestamp follows the last processed answer (also downwards); the server's Get returns the store's answer unfiltered.",
-	"C17": "Added after seed rounds 6-8: a DAG transaction with both kid and jwk is refused (also stated under this property).",
-	"C18": "Added after seed rounds 6-8: one definition of 'deactivated' in store and resolver; the did:jwk / did:key resolvers keep no package-level state.",
-	"C19": "Added after seed rounds 6-8: detectors D9 (zero value of a failed comma-ok written to / dereferenced) and D10 (nil-on-failure standard-library result dereferenced).",
+	"C01": "Added after seed rounds 6-9: ProofOptions.ValidAt answers true only via 'no expiry' or 'not yet expired'.",
+	"C02": "Added after seed rounds 6-9: the s2s nonce is looked up and registered under the extracted nonce alone (flow-sensitive value identity); the all-present flag of the nonce check is a sticky loop-carried flag.",
+	"C03": "Added after seed rounds 6-9: the key reference is read from the table on every use and the engine holds no process-local map; the DPoP jwk header is set from the signing key on every path; the in-memory signer signs only for its own key id (byte equality).",
+	"C04": "Added after seed rounds 6-9: the wildcard address alone makes two listen addresses overlap (bare disjuncts of the result); the RSA key size compared with the minimum is the modulus bit length itself.",
+	"C06": "Added after seed rounds 6-9: the recorded key id is the kid header's value and is recorded whenever the header is present; every entry of the prevs header is kept as a reference.",
+	"C07": "Added after seed rounds 6-9: the advertised clock never goes down; private transactions are served without their payload; the IBLT fallback goes exactly one page down; a concurrently duplicated delivery is not summarised twice; a list query is answered for every requested ref; loop-carried flags in the transport packages are sticky.",
+	"C08": "Added after seed rounds 6-9: the repair replaces a page with the unmodified recomputed root; the whole-tree root answers only a request at or beyond the head; tree.Load forgets all tracked updates; tree.Replace marks the replaced leaf dirty.",
+	"C09": "Added after seed rounds 6-9: the DID is compared with the thumbprint as spelled (the field itself); the deactivated flag of a merged version is sticky.",
+	"C10": "Added after seed rounds 6-9: the deactivated flag of a version is computed from the transaction's own document; a DID is counted once, at version 0; every delivery of a transaction is applied (no seen-before shortcut); Resolve matches against the caller's metadata as given.",
+	"C11": "Added after seed rounds 6-9: revocation is independent of the validation time; the status-list index is compared with nothing but the list's own bound.",
+	"C12": "Added after seed rounds 6-9: count/min/max count matched members (the member list is never cut positionally); unfulfilled nested requirements keep an empty slot.",
+	"C13": "Added after seed rounds 6-9: 'committed' for did:nuts means head of the store; the pending test does not consult the clock; the sweep's committed flag is sticky.",
+	"C14": "Added after seed rounds 6-9: the retry loop has no RetryIf predicate (only the receiver's verdict or the budget end the retries).",
+	"C15": "Added after seed rounds 6-9: PAL.Contains is DID equality; behind a TLS terminator exactly one certificate header value is accepted.",
+	"C16": "Added after seed rounds 6-9: the client's timestamp follows the last processed answer (also downwards); the server's Get returns the store's answer unfiltered.",
+	"C17": "Added after seed rounds 6-9: a DAG transaction with both kid and jwk is refused (also stated under this property).",
+	"C18": "Added after seed rounds 6-9: one definition of 'deactivated' in store and resolver; the did:jwk / did:key resolvers keep no package-level state; a migrated history is cut at the deactivating version.",
+	"C19": "Added after seed rounds 6-9: detectors D9 (zero value of a failed comma-ok written to / dereferenced) and D10 (nil-on-failure standard-library result dereferenced).",
 }
